@@ -19,11 +19,12 @@ from ..runner import shrink_ops
 
 ID = 'C14'
 RULE = ("send: all life-cycle phases (notStarted, abortedBeforeStart, taskCreated, initialising, running, "
+        "finalizedNotStarted/finalizedTaskCreated = after an explicit Circuit.finalize(), "
         "cancelRequested, and aborting/cleaningUp/finished after each stop kind: abort(), handler error, control "
         "abort/shutdown events, shutdown(), bare cancel) x constructor arguments (6 destination kinds, valid and "
         "invalid event types, default/plain/marked/empty/non-string default source) x data shapes (positional value "
         "absent/int/None/str/tuple; source item absent, plain, already marked, near-miss prefixes, empty, non-string; "
-        "other items) x destination block kinds (generic _event, specific handler, Input.put) -- the phase x "
+        "other items incl. items named like parameters of the methods on the way: etype, data, handler, dest) x destination block kinds (generic _event, specific handler, Input.put) -- the phase x "
         "source-shape x value product is enumerated completely, the other dimensions are random; "
         "names: user names incl. reserved/empty ones, automatic names of classes called Probe/ext/Ext/extra/ext_x/"
         "e/ex/..., _ctrl, _not_NAME, _cron_utc/_cron_local. distinct = hash of (lines, trace); non-trivial = at "
@@ -36,7 +37,7 @@ EXHAUSTIVE = {'quick': False, 'thorough': False}
 
 STOP_KINDS = ['abort', 'handler', 'ctrlAbort', 'ctrlShutdown', 'shutdown', 'cancel']
 PHASES = (['notStarted', 'abortedBeforeStart', 'taskCreated', 'initialising', 'running', 'cancelRequested',
-           'abortedStartFinished', 'eagerRefused']
+           'abortedStartFinished', 'eagerRefused', 'finalizedNotStarted', 'finalizedTaskCreated']
           + [f'{p}:{k}' for p in ('aborting', 'stopping1', 'cleaningUp', 'finished') for k in STOP_KINDS])
 # 'aborting:K'  = right after the stop K was requested, in the same step of the caller;
 # 'stopping1:K' = one event-loop iteration later (a task created for shutdown() has made its first step, a
@@ -68,6 +69,11 @@ def recipe(phase):
         return ['eager']
     if base == 'taskCreated':
         return ['create']
+    # an explicit Circuit.finalize() (documented: to inspect the connections before the start) changes nothing
+    if base == 'finalizedNotStarted':
+        return ['finalize']
+    if base == 'finalizedTaskCreated':
+        return ['finalize', 'create']
     if base == 'initialising':
         return ['create', 'settle0']
     if base == 'abortedStartFinished':
@@ -97,7 +103,8 @@ def scenarios(rng, tier):
         return s
     # phase x source shape x value: complete
     for phase in PHASES:
-        sends = [send(source=src, value=val, extra=rng.choice([{}, {'a': 1}, {'b': None, 'sourcex': 's'}]))
+        sends = [send(source=src, value=val, extra=rng.choice([{}, {'a': 1}, {'b': None, 'sourcex': 's'},
+                                                                 {'etype': 'fault', 'data': 3}]))
                  for src in SOURCES for val in VALUES]
         rng.shuffle(sends)
         for i in range(0, len(sends), 12):
@@ -112,8 +119,9 @@ def scenarios(rng, tier):
         phase = rng.choice(PHASES)
         ops = []
         for _ in range(rng.randint(1, 6)):
-            extra = {k: rng.choice([0, 'x', None, (1,)]) for k in rng.sample(['a', 'b', 'value2', 'sourcex', 'src'],
-                                                                             rng.randint(0, 3))}
+            extra = {k: rng.choice([0, 'x', None, (1,)])
+                     for k in rng.sample(['a', 'b', 'value2', 'sourcex', 'src', 'etype', 'data', 'handler', 'dest'],
+                                         rng.randint(0, 3))}
             ops.append(send(dest=rng.choice(DESTS[:2] * 4 + DESTS), etype=rng.choice(ETYPES),
                             csrc=rng.choice(CTOR_SOURCES + [rand_source(rng)] * 4), value=rng.choice(VALUES),
                             source=rng.choice(SOURCES + [rand_source(rng)] * 8), extra=extra))
@@ -253,6 +261,9 @@ def run_send(scn):
                 lines.append('ext reset')       # the start was refused: the circuit is as before the start
                 trace.append('ok')
                 life.append(('eager-refused', circuit.is_ready()))
+            elif step == 'finalize':
+                circuit.finalize()
+                life.append(('finalize', circuit.is_ready()))
             elif step == 'create':
                 simtask = asyncio.create_task(circuit.run_forever())
             elif step == 'settle0':
